@@ -3,6 +3,7 @@ CONSTANTS
   RegisterBeforeInit = TRUE
   Literal = {}
   ReleaseOnRefusal = TRUE
+  OwnAtTag = TRUE
   Streaming = {}
 INIT Init
 NEXT Next
